@@ -93,7 +93,7 @@ def _arm():
     threading.Thread(target=watch, daemon=True).start()
 
 
-def task(i, tag, fault, dur):
+def task(i, tag, fault, dur, pad=None):
     pid = os.getpid()
     _arm()
     if fault is None:
@@ -126,6 +126,6 @@ def task(i, tag, fault, dur):
     return (tag, i, pid)
 
 
-def with_arg(i, tag, arg, dur):
+def with_arg(i, tag, arg, dur, pad=None):
     time.sleep(dur)
     return (tag, i, os.getpid())
